@@ -177,3 +177,11 @@ Proof.
   assert (T : MI_GetTypeOfIdentity (suci_wire s) = Ok s_SUCI) by reflexivity.
   rewrite T. cbn [obind]. eval_eqb_bytes. rewrite G. reflexivity.
 Qed.
+
+(* GetMobileIdentity on a 5G-S-TMSI (after fix c23cc0d it goes through Get5GSTMSI): the full 5G-S-TMSI text *)
+Lemma stmsi_mobile_identity t : stmsi_ok t ->
+  MI_GetMobileIdentity (stmsi_wire t) = Ok (stmsi_text t, s_5GSTMSI).
+Proof.
+  intro H. destruct (stmsi_getters t H) as (T & _). destruct (stmsi_text_ok t) as (E & _).
+  unfold MI_GetMobileIdentity. rewrite T. cbn [obind]. eval_eqb_bytes. rewrite E. reflexivity.
+Qed.
